@@ -18,6 +18,40 @@ from ttsa import props  # noqa: E402
 from ttsa.report import finish  # noqa: E402
 
 
+def evaluate(pid, tier, prog, cache):
+    """(obligations, counts, rules run) of property pid on program prog; raises AnalysisError."""
+    spec = props.PROPS[pid]
+    obs = []
+    counts = {}
+    rules_run = []
+    errors = []
+    for rname in spec['rules']:
+        fn = props.RULES[rname]
+        key = (rname, tier)
+        if key not in cache:
+            try:
+                cache[key] = fn(prog, tier)
+            except AnalysisError as e:
+                cache[key] = e
+        if isinstance(cache[key], AnalysisError):
+            # the rule lost an anchor: the other rules of the property still run; the run cannot pass
+            errors.append('%s: %s' % (rname, cache[key]))
+            continue
+        o, c = cache[key]
+        flt = spec.get('filter', {}).get(rname)
+        if flt:
+            o = [x for x in o if flt(x)]
+        floor = props.FLOORS.get('%s/%s' % (pid, rname), 1)
+        if len(o) < floor and all(x.ok for x in o):
+            errors.append('rule %s found %d instances for %s, fewer than the floor of %d derived from the '
+                          'instances confirmed by hand (anchor vanished?)' % (rname, len(o), pid, floor))
+        obs.extend(o)
+        for k, v in c.items():
+            counts[k] = v
+        rules_run.append(rname)
+    return obs, counts, rules_run, errors
+
+
 def run_property(pid, tier, prog=None, cache=None):
     t0 = time.time()
     if pid not in props.PROPS:
@@ -26,28 +60,17 @@ def run_property(pid, tier, prog=None, cache=None):
     spec = props.PROPS[pid]
     prog = prog or Program()
     cache = cache if cache is not None else {}
-    obs = []
-    counts = {}
-    rules_run = []
-    for rname in spec['rules']:
-        fn = props.RULES[rname]
-        key = (rname, tier)
-        if key not in cache:
-            cache[key] = fn(prog, tier)
-        o, c = cache[key]
-        flt = spec.get('filter', {}).get(rname)
-        if flt:
-            o = [x for x in o if flt(x)]
-        floor = props.FLOORS.get('%s/%s' % (pid, rname), 1)
-        if len(o) < floor and all(x.ok for x in o):
-            raise AnalysisError('rule %s found %d instances for %s, fewer than the floor of %d derived from the '
-                                'instances confirmed by hand (anchor vanished?)' % (rname, len(o), pid, floor))
-        obs.extend(o)
-        for k, v in c.items():
-            counts[k] = v
-        rules_run.append(rname)
-    return finish(pid, tier, obs, t0, rules_run, prog, spec['explanation'], assumptions=spec['assumptions'],
-                  counts=counts)
+    obs, counts, rules_run, errors = evaluate(pid, tier, prog, cache)
+    if errors:
+        counts = dict(counts)
+        counts['analysis_errors'] = errors
+    rc = finish(pid, tier, obs, t0, rules_run, prog, spec['explanation'], assumptions=spec['assumptions'],
+                counts=counts)
+    for e in errors:
+        print('ANALYSIS-ERROR %s %s' % (pid, e))
+    if errors and rc == 0:
+        return 2
+    return rc
 
 
 def replay(path):
@@ -95,7 +118,7 @@ def main(argv):
                 worst = max(worst, rc)
             return worst
         if args and args[0] == '--write-floors':
-            # developer command: freeze 80% of today's instance counts (never run by a registered check)
+            # developer command: freeze half of today's instance counts (never run by a registered check)
             prog = Program()
             cache = {}
             floors = {}
@@ -109,7 +132,7 @@ def main(argv):
                     flt = spec.get('filter', {}).get(rname)
                     if flt:
                         o = [x for x in o if flt(x)]
-                    floors['%s/%s' % (pid, rname)] = max(1, (len(o) * 4) // 5)
+                    floors['%s/%s' % (pid, rname)] = len(o) // 2
             with open(os.path.join(os.path.dirname(os.path.abspath(__file__)), 'ttsa', 'floors.json'), 'w') as fh:
                 json.dump(floors, fh, indent=1, sort_keys=True)
             print('wrote %d floors' % len(floors))
